@@ -119,7 +119,7 @@ def sample_library(it, P, name_kind="str", concrete=False):
     e1 = mk("Entry", start_line=1, entry_type="article", key="k1", raw=S("raw1"),
             fields=AList([mk("Field", key="author", value=author, start_line=2), mk("Field", key="Title", value=S("title"), start_line=3),
                           mk("Field", key="month", value=S("month"), start_line=4)]))
-    e1.attrs["_parser_metadata"].items["removed_enclosing"] = ADict({"author": "{", "Title": '"', "month": "no-enclosing"})
+    it.get_attr(e1, "parser_metadata").items["removed_enclosing"] = ADict({"author": "{", "Title": '"', "month": "no-enclosing"})
     e2 = mk("Entry", start_line=5, entry_type="book", key="k1", raw=S("raw2"), fields=AList([mk("Field", key="year", value=S("year"), start_line=6)]))
     s1 = mk("String", start_line=7, key="s1", value=S("sval"), raw=S("raw3"))
     pre = mk("Preamble", start_line=8, value=S("pval"), raw=S("raw4"))
@@ -222,8 +222,14 @@ def run(P: Program, rep: Report):
 
         variant = 0
 
-        def run1(ctx, mcls=mcls, kwargs=kwargs, name_kind=name_kind, concrete=True, uncopyable=False):
-            it = driver_interp(P, ctx, mod, dict(intr))
+        def run1(ctx, mcls=mcls, kwargs=kwargs, name_kind=name_kind, concrete=True, uncopyable=False, failing=False):
+            hooks = None
+            if failing:
+                # the third-party converter fails for the title and the @string value: the middleware returns error blocks, whose
+                # exceptions (never copied: they copy as themselves) must not carry anything mutable into the next stage
+                from .c18 import Hooks as _Hooks
+                hooks = _Hooks([CONCRETE["title"], CONCRETE["sval"]], "conversion failed")
+            it = driver_interp(P, ctx, mod, dict(intr), hooks)
             it.unknown_loop_iters = (1,)
             try:
                 lib = sample_library(it, P, name_kind, concrete=concrete)
@@ -231,7 +237,7 @@ def run(P: Program, rep: Report):
                     # parser_metadata may hold any python object: one that cannot be deep-copied makes the copy fail - falling back
                     # to a shallow copy would share the entry's fields with the input
                     for b_ in it.iterate(it.get_attr(lib, "entries")):
-                        b_.attrs["_parser_metadata"].items["guard"] = Uncopyable()
+                        it.get_attr(b_, "parser_metadata").items["guard"] = Uncopyable()
                 mw = it.construct(mcls, [], dict(kwargs))
             except Raised as r:
                 return ("setup-raise", r, None, None, None, None)
@@ -269,6 +275,8 @@ def run(P: Program, rep: Report):
 
         res = explore(run1, 4000)
         res = res + explore(lambda c: run1(c, uncopyable=True), 4000)
+        if "latex" in mod:
+            res = res + explore(lambda c: run1(c, failing=True), 4000)
         if rep.tier != "quick":
             # unknown values (more paths through the value-dependent code); the second application stays with the concrete pass
             res = res + explore(lambda c: run1(c, concrete=False), 40000)
@@ -336,7 +344,12 @@ def run(P: Program, rep: Report):
         it = driver_interp(P, ctx, "entrypoint", dict(intr))
         lib = sample_library(it, P, "str", concrete=(rep.tier == "quick"))
         fmt = new_obj(it, P, "writer", "BibtexFormat")
-        it.set_attr(fmt, "value_column", "auto")
+        if variant in (4, 5):
+            # an integer column and a warning comment with braces of its own: nothing the writer derives from them is stored back
+            it.set_attr(fmt, "value_column", 12 if variant == 4 else 0)
+            it.set_attr(fmt, "parsing_failed_comment", "% failed {block}" if variant == 4 else "% {n} lines } of a block")
+        else:
+            it.set_attr(fmt, "value_column", "auto")
         b1, b2 = snapshot(lib), snapshot(fmt)
         kw = {}
         if variant == 1:
@@ -356,7 +369,7 @@ def run(P: Program, rep: Report):
     bad = set()
     n = 0
     runs = []
-    for variant in (0, 1, 2, 3):
+    for variant in (0, 1, 2, 3, 4, 5):
         runs.extend(explore(lambda c, v=variant: run2(c, v), 4000))
     for ctx, (kind, a, b) in runs:
         n += 1
